@@ -1,5 +1,6 @@
 import Umya.Driver.Proto
 import Umya.Model.Formula
+import Umya.Model.NameShift
 namespace Umya.Driver.C08
 open Umya.Coord Umya.Proto Umya.Formula
 
@@ -44,13 +45,43 @@ def runHist (fsheet : List Char) : Option (List Char) → List EditOp → List S
     | .ok t' => encodeStr t' :: runHist fsheet (some t') es
     | .panic => "panic" :: runHist fsheet none es
 
+/-- one structural edit seen from the names stored on one sheet: at workbook level
+    (`Spreadsheet::insert_new_row(edited, ..)`) and at sheet level (`Worksheet::insert_new_row` on the
+    edited sheet — its own title is the edited name —, `.._from_other_sheet(edited, ..)` on the others)
+    the names go through `Worksheet::adjustment_*_coordinate_with_sheet(edited, ..)` -/
+def applyEditNames (names : List Umya.Annot.DefName) (e : EditOp) : Res (List Umya.Annot.DefName) :=
+  let ws := sheets.getD e.sheet []
+  if e.isRow then Umya.NameShift.sheetEdit e.kind names ws 0 0 e.at_ e.n
+  else Umya.NameShift.sheetEdit e.kind names ws e.at_ e.n 0 0
+
+/-- what the harness reads back: the address of the one name, or how many names there are -/
+def namesReply (names : List Umya.Annot.DefName) : String :=
+  match names with
+  | [d] => encodeStr d.text
+  | l => encodeStr s!"<{l.length} names>".toList
+
+def runDn : Option (List Umya.Annot.DefName) → List EditOp → List String
+  | _, [] => []
+  | none, _ :: es => "panic" :: runDn none es
+  | some ns, e :: es =>
+    match applyEditNames ns e with
+    | .ok ns' => namesReply ns' :: runDn (some ns') es
+    | .panic => "panic" :: runDn none es
+
 def handle (args : List String) : String :=
   match args with
   | "hist" :: _level :: fs :: h :: edits :: _ =>
     match fs.toNat?, decodeStr h, parseEdits edits with
     | some fs, some s, some es => ",".intercalate (runHist (sheets.getD fs []) (some s) es)
     | _, _, _ => "bad-op"
-  | "dn" :: _ => "unmodelled"
+  | "dn" :: _level :: _ns :: h :: edits :: _ =>
+    match decodeStr h, parseEdits edits with
+    | some s, some es =>
+      -- `Worksheet::add_defined_name`: `DefinedName::set_address` on a fresh name
+      (match Umya.Annot.DefName.setAddress {} s with
+       | .ok d => ",".intercalate (runDn (some [d]) es)
+       | .panic => ",".intercalate (runDn none es))
+    | _, _ => "bad-op"
   | _ => "bad-op"
 
 end Umya.Driver.C08
